@@ -117,6 +117,11 @@ func runHistory(c *ctx) error {
 			switch k := rng.Intn(10); {
 			case k < 4 || len(file) == 0: // append
 				file = append(file, rec{int(origin) - 3 + rng.Intn(40), readings[rng.Intn(len(readings))]})
+				if rng.Intn(3) == 0 {
+					// the same (possibly new) slot once more in the same edit, with another reading: the second row
+					// cannot be stored and must not be sent either
+					file = append(file, rec{file[len(file)-1].slot, readings[rng.Intn(len(readings))]})
+				}
 			case k < 6: // rewrite one row with another value
 				file[rng.Intn(len(file))].r = readings[rng.Intn(len(readings))]
 			case k < 7: // duplicate a slot with another value
